@@ -604,7 +604,8 @@ macro_rules! lx_str_expr_harness {
                 let mut kept = [true; $k];
                 let closing_first = c0 == '"' && ch_at(&t, 1) != Some('"');
                 // a lone '&' run / '%' consumed by the dispatcher is text; so is the first quote of a "" pair
-                let (stop, how) = if closing_first { (0, 1) } else { ref_str_expr_scan(&t, 0, &mut kept) };
+                // (a '%' consumed by the dispatcher is text even before '*': only the scanner treats "%*" as a trigger)
+                let (stop, how) = if closing_first { (0, 1) } else { ref_str_expr_scan(&t, if c0 == '%' { 1 } else { 0 }, &mut kept) };
                 let tn = shadow::tok_n();
                 if how == 1 && plain {
                     // plain literal: the start token becomes the literal, typed by its suffix
@@ -1234,8 +1235,10 @@ lx_harness! {
         if kani::any() {
             shadow::preload_token(shadow::mk_token(TokenChannel::HIDDEN, TokenType::WS, 2, 1, 0, Payload::None));
         }
+        let pend_len = lx.pending_stat_stack.len();
         let pre = snapshot(&lx, &t);
         lx.dispatch_macro_do(c);
+        assert!(lx.pending_stat_stack.len() == pend_len && lx.macro_nesting_level == 0, "C15/C11: the %do look-ahead leaves the pending-statement frames alone (the keyword opened the frame, %end closes it)");
         let pi = check_common(&lx, &t, &pre);
         let n = lx.mode_stack.len();
         let tn = shadow::tok_n();
@@ -1372,6 +1375,18 @@ lx_harness! {
 // upper-cases the keyword into a String and compares strings, which dominates the debug-configuration
 // query; this harness runs in the release-like configuration (the assertion is an observer only).
 
+pub(crate) fn found_any<const K: usize, const B: usize>(t: &Txt<K, B>, j: usize) -> bool {
+    let mut f = false;
+    let mut i = 0;
+    while i < K {
+        if i > j && i < t.n && t.ch[i] == ';' {
+            f = true;
+        }
+        i += 1;
+    }
+    f
+}
+
 macro_rules! lx_datalines_direct_harness {
     ($k:literal, $b:literal, $uw:literal, $name:ident, $four:literal, $fixed:expr) => {
         lx_harness! {
@@ -1411,7 +1426,7 @@ macro_rules! lx_datalines_direct_harness {
                     i += 1;
                 }
                 let is_dl = prev != 2 && j < t.n && t.ch[j] == ';';
-                assert!(r == is_dl, "C11: a datalines block starts with its keyword at statement start, followed by blanks and ';'");
+                assert!(r == is_dl, "C11/C15: a datalines block starts with its keyword at statement start, followed by blanks and ';'");
                 if !is_dl {
                     assert!(pi == kwl && shadow::tok_n() == pre.tok_n && lx.errors.len() == pre.err_n, "C11: otherwise nothing is consumed or emitted");
                 } else {
@@ -1442,8 +1457,9 @@ macro_rules! lx_datalines_direct_harness {
                 }
                 assert!(lx.mode_stack.len() == pre.stack_len && lx.checkpoint.is_none());
                 kani::cover!(is_dl && j > kwl && t.ch[kwl] == '\u{a0}', "Unicode blank between keyword and ';'");
+                kani::cover!(is_dl && found_any(&t, j), "terminated block");
                 kani::cover!(is_dl && prev == 0);
-                kani::cover!(is_dl && pi == t.n && t.ch[t.n - 1] == ';' && t.n >= j + 3, "data then terminator");
+                kani::cover!($k < 8 || (is_dl && pi == t.n && t.ch[t.n - 1] == ';' && t.n >= j + 3), "data then terminator");
                 kani::cover!(is_dl && pi == t.n && t.ch[t.n - 1] != ';', "unterminated block");
                 kani::cover!(!is_dl && prev == 1);
                 std::mem::forget(lx);
@@ -1451,6 +1467,7 @@ macro_rules! lx_datalines_direct_harness {
         }
     };
 }
+lx_datalines_direct_harness!(7, 32, 9, lx_datalines_direct_k2, false, &['c', 'A', 'r', 'd', 's']);
 lx_datalines_direct_harness!(8, 36, 10, lx_datalines_direct_k3, false, &['c', 'A', 'r', 'd', 's']);
 lx_datalines_direct_harness!(9, 40, 11, lx_datalines_direct_k4, false, &['l', 'i', 'n', 'e', 's']);
 lx_datalines_direct_harness!(12, 52, 14, lx_datalines4_direct_k6, true, &['c', 'a', 'r', 'd', 's', '4']);
